@@ -644,6 +644,91 @@ func (s *splitFn) coord(c *Ctx, name string) {
 		}
 	})
 	c.stat("coordinate-sites", n)
+
+	// the record-start offset (Low of the slice-by-advance) is fixed once parsing of the record has begun
+	var lowCell *ssa.Alloc
+	allInstrs(fn, func(in ssa.Instruction) {
+		if sl, ok := in.(*ssa.Slice); ok && advCell != nil {
+			if u, ok := sl.High.(*ssa.UnOp); ok && u.X == ssa.Value(advCell) {
+				if l, ok := sl.Low.(*ssa.UnOp); ok {
+					if a, ok := l.X.(*ssa.Alloc); ok {
+						lowCell = a
+					}
+				}
+			}
+		}
+	})
+	if lowCell == nil {
+		return
+	}
+	// marker: the block that resets the scratch record buffer to length 0 (start of field parsing)
+	var startBlk *ssa.BasicBlock
+	allInstrs(fn, func(in ssa.Instruction) {
+		if st, ok := in.(*ssa.Store); ok {
+			if f, _ := fieldOfAddr(st.Addr); f != nil && splitScratch[f.Name()] != "" {
+				if sl, ok := st.Val.(*ssa.Slice); ok && sl.High != nil {
+					if k, ok := sl.High.(*ssa.Const); ok && k.Value != nil && k.Value.ExactString() == "0" && startBlk == nil {
+						startBlk = in.Block()
+					}
+				}
+			}
+		}
+	})
+	if startBlk == nil {
+		c.undecided("coord:"+name+":record-start-marker", fn.Pos(), "start of field parsing (scratch buffer reset) not found")
+		return
+	}
+	// sites that modify the start offset: direct stores, or calls of closures that store to it
+	closureStores := map[*ssa.Function]bool{}
+	for _, r := range *lowCell.Referrers() {
+		if mc, ok := r.(*ssa.MakeClosure); ok {
+			cf := mc.Fn.(*ssa.Function)
+			for i, b := range mc.Bindings {
+				if b == ssa.Value(lowCell) && i < len(cf.FreeVars) {
+					fv := cf.FreeVars[i]
+					for _, r2 := range *fv.Referrers() {
+						if st, ok := r2.(*ssa.Store); ok && st.Addr == ssa.Value(fv) {
+							closureStores[cf] = true
+						}
+					}
+				}
+			}
+		}
+	}
+	late := token.NoPos
+	after := reachableFromStrict(startBlk)
+	allInstrs(fn, func(in ssa.Instruction) {
+		modifies := false
+		if st, ok := in.(*ssa.Store); ok && st.Addr == ssa.Value(lowCell) {
+			if _, isConstInit := st.Val.(*ssa.Const); !isConstInit || true {
+				modifies = true
+			}
+		}
+		if call, ok := in.(ssa.CallInstruction); ok {
+			cc := call.Common()
+			if u, ok := cc.Value.(*ssa.UnOp); ok {
+				if cell, ok := u.X.(*ssa.Alloc); ok {
+					for _, r := range *cell.Referrers() {
+						if st, ok := r.(*ssa.Store); ok {
+							if mc, ok := st.Val.(*ssa.MakeClosure); ok && closureStores[mc.Fn.(*ssa.Function)] {
+								modifies = true
+							}
+						}
+					}
+				}
+			}
+			if mc, ok := cc.Value.(*ssa.MakeClosure); ok && closureStores[mc.Fn.(*ssa.Function)] {
+				modifies = true
+			}
+			if f := cc.StaticCallee(); f != nil && closureStores[f] {
+				modifies = true
+			}
+		}
+		if modifies && (after[in.Block()] || (in.Block() == startBlk && false)) {
+			late = in.Pos()
+		}
+	})
+	c.check(late == token.NoPos, "coord:"+name+":record-start-fixed", late, "the record-start offset is only advanced (skipped lines) before parsing of the record's fields begins", name+": the offset marking the start of the record text is advanced after parsing of the record has begun (e.g. while reading a continuation line of a quoted field): $0 then loses the beginning of its own record")
 }
 
 // isOriginalData: v is the data parameter as received (no re-slice can have been stored into its cell before the load).
